@@ -897,7 +897,12 @@ fn do_read(shared: &Arc<Shared>, me: usize, op_idx: usize, slot: u8) {
         };
         if op_idx % 2 == 1 {
             // every other read walks a clone of the shared result
-            let copy = LexResult { buffer: arc.res.buffer.clone(), errors: arc.res.errors.clone() };
+            let copy = LexResult {
+                buffer: arc.res.buffer.clone(),
+                errors: arc.res.errors.clone(),
+                #[cfg(feature = "opti_stats")]
+                max_mode_stack_depth: arc.res.max_mode_stack_depth,
+            };
             outcome_of_result(&arc.text, &copy, &mut tick)
         } else {
             outcome_of_result(&arc.text, &arc.res, &mut tick)
